@@ -341,3 +341,11 @@ Theorem C02_count_run_is_arith : forall n s0 s a ws,
   (b_qd s, mlen (w_buf (b_w s)), match last ws RNone with RErr e => e =? E_COUNT | _ => false end).
 Proof. exact count_run_is_arith. Qed.
 Print Assumptions C02_count_run_is_arith.
+
+(* The section-generic entry (trait RecordSectionBuilder) of every record
+   section is that section's own push (T1 reads the three impl bodies), so the
+   model's record push covers it; the harness routes half of all record pushes
+   through the trait. *)
+Theorem C02_section_trait_push_is_own_push : section_trait_push_is_own_push = true.
+Proof. reflexivity. Qed.
+Print Assumptions C02_section_trait_push_is_own_push.
